@@ -648,15 +648,13 @@ def model_case(rng, nops, combos=None):
 
 
 def rotate(rng, tier):
-    """quick tier: one option variant per format and case; thorough: all combinations"""
-    if tier != "quick":
-        return COMBOS
-    return [COMBOS[rng.choice([0, 1])], COMBOS[rng.choice([2, 3])], COMBOS[4], COMBOS[rng.choice([5, 6])], COMBOS[7]]
+    """every format x option for every case (a case costs ~10 ms); kept as a hook for a cheaper quick tier"""
+    return COMBOS
 
 
 def generate(rng, tier):
     cases = matrix_rich() + matrix_model()
-    n_rich, n_model = (200, 200) if tier == "quick" else (5000, 5000)
+    n_rich, n_model = (400, 400) if tier == "quick" else (5000, 5000)
     for _ in range(n_rich):
         cases.append(rich_case(rng, combos=rotate(rng, tier)))
     for _ in range(n_model):
@@ -1131,10 +1129,12 @@ def cmp_val(f, va, vb, p, out, norms):
             cmp_val(f.value_field, x, vb[k], "%s[%s]" % (p, k), out, norms)
         return
     if isinstance(f, cc.ListField) and isinstance(f.field, cc.AnyField) and isinstance(va, list) and isinstance(vb, list) \
-            and type(va) is not type(vb) and teq(list(va), list(vb)):
-        # NEW-1 (provisional): same items, but the container class changed (ListProxy of AnyField items <-> list)
-        out.append((p, "%s %s came back as %s with the same items" % (type(va).__name__, short(va), type(vb).__name__), "container-class"))
-        return
+            and type(va) is not type(vb):
+        # a list of AnyField items is a ListProxy when it comes from the field's default and a plain list after
+        # an assignment or a load; no item is typed, so the container class is not part of the value (ruled outside C02):
+        # the items are compared exactly, the class change is only tagged
+        norms.add("anyfield-list-class")
+        va, vb = list(va), list(vb)
     if isinstance(f, cc.SecureField) and va == "" and type(va) is str and vb is None:
         norms.add("norm:secret-empty->none")
         return
@@ -1469,8 +1469,6 @@ def classify(case, msg):
         return None
     reg = res.get("regions", {})
     p, what = info.get("path"), info.get("what")
-    if what == "container-class":
-        return "NEW-1"
     if what == "load-raise" and p is not None:
         if any(under(p, r) for r in reg.get("F36", [])):
             return "F36"
